@@ -93,6 +93,21 @@ def random_spec(rng: random.Random, recursive=False, max_nt=4, max_rules=3, max_
                 if i not in used:
                     feats.append("isolated_ext" if i in ext else "isolated_int")
             rules.append(dict(lhs=x, nodes=nodes, edges=edges, ext=ext))
+    if recursive and linear is False and rules:
+        # force genuinely non-linear recursion: some rule gets two edges labelled by its own lhs
+        if not any(sum(1 for el, _ in r["edges"] if not elabels[el]["term"]) >= 2 for r in rules):
+            r = rng.choice(rules)
+            x = r["lhs"]
+            for _ in range(2):
+                att = []
+                for nl in elabels[x]["type"]:
+                    cands = [i for i, l in enumerate(r["nodes"]) if l == nl]
+                    att.append(rng.choice(cands))
+                r["edges"].append((x, att))
+            # and a base rule so that the nonterminal is productive
+            if not any(rr["lhs"] == x and all(elabels[el]["term"] for el, _ in rr["edges"]) for rr in rules):
+                nodes = list(elabels[x]["type"])
+                rules.append(dict(lhs=x, nodes=nodes, edges=[], ext=list(range(len(nodes)))))
     # reachability from start
     reach = {0}; todo = [0]
     while todo:
